@@ -439,6 +439,11 @@ def shards(tier):
     # size ladder: long columns whose leading run is missing (a dtype guessed from a prefix of the records is wrong here)
     for fam in PAIR_FAMS:
         out.append({"part": "long", "fam": fam, "n": 0})
+    # temporal columns once more with a local time zone that is not UTC: datetime64 values are naive, no conversion
+    # may go through the machine's local time
+    for sh in list(out):
+        if sh["part"] == "single" and sh["n"] <= 2 and any(t in str(sh["fam"]).lower() for t in ("date", "time", "ns", "us", "ms", "day")):
+            out.append(dict(sh, __env__={"TZ": "America/St_Johns"}))
     return out
 
 
